@@ -169,6 +169,10 @@ func (s *Server) verifyPriority(pubkey *ecdsa.PublicKey, data *ConsensusCommon) 
 		logging.Error("=======verify priority failed.", "Round", data.Round, "RoundIndex", data.RoundIndex,
 			"Kind", kind, "Sub-Users", data.SubUsers, "step", data.Step, "proposerTh", s.CurrentCaravelParams().ProposerThreshold,
 			"stake", stake, "totalStake", totalStake, "seed", lookBackSeed.String(), "addr", addr.String())
+		if err == nil {
+			// VrfVerifyPriority reports a priority that is not the largest seat hash as (false, nil)
+			err = fmt.Errorf("invalid priority")
+		}
 		return err
 	}
 
